@@ -1,5 +1,6 @@
 import TxVerif.Props.C12
 import TxVerif.Tie.PQ
+import TxVerif.Props.C12Writer
 open TxVerif
 #print axioms ack_space_bound
 #print axioms ack_keeps_unacked
@@ -9,3 +10,21 @@ open TxVerif
 #print axioms ackPlan_cleanAll
 #print axioms ackInit_layout
 #print axioms ackPlan_freed_acked
+#print axioms failed_flush_keeps_state
+#print axioms failed_write_keeps_state
+#print axioms failed_next_finishes_event
+#print axioms failed_flush_identity
+#print axioms assigned_only_head
+#print axioms writer_persisted_prefix_fail
+#print axioms flush_success_delivers
+#print axioms writer_refines_layout_fail
+#print axioms next_autoflush_delivers
+#print axioms no_loss_no_duplicate
+#print axioms no_loss_no_duplicate_via
+#print axioms retry_succeeds_equal
+#print axioms retry_succeeds_equal_ok
+#print axioms writer_output_events_only_fail
+#print axioms failed_flush_range_monotone
+#print axioms flush_reports_delivered_count
+#print axioms effOps_eq
+#print axioms runF_liftOk
